@@ -24,6 +24,7 @@ func runC15(r *engine.Run) {
 	r.Rule("NILIFACE", "in the decoder closure no possibly-nil pointer is converted to an interface (a typed nil inside an interface defeats the `== nil` guards of the encoders, which then dereference it)")
 	r.Rule("ORDER-progress", "each recursive call of verifyProof / deserializeTrie is dominated by the bounds test of the cursor and by its increment: the recursion consumes one proof element per call and terminates")
 	r.Rule("COST-linear", "in the self-recursive decoders (verifyProof, deserializeTrie) no structure-recursive method (one that some node kind implements by calling the same method on a sub-node without a dirty-flag memo guard, e.g. shortNode.Weight) is called on the subtree returned by the recursive call: the work per nesting level is constant, so decoding time is linear in the input")
+	r.Rule("DOM-tracker", "in CreateNode a call SetOriginTracker(non-nil) on the node dominates every return that carries the node: an accepted node can always be re-encoded, hashed and cloned (all go through the tracker)")
 	r.NotDec = append(r.NotDec, "behaviour of the CBOR and msgp libraries on hostile input (third-party code)")
 	entries := decoderEntries(r)
 	if len(entries) < 8 {
@@ -59,6 +60,7 @@ func runC15(r *engine.Run) {
 	}
 	orderProgress(r)
 	costLinear(r, "COST-linear")
+	domTracker(r, "DOM-tracker")
 }
 
 var decoderReach map[*ssa.Function]bool
@@ -491,6 +493,20 @@ func boundsIn(r *engine.Run, f *ssa.Function) int {
 				good, why = sliceSafe(facts, x)
 			}
 			r.Check(good, rule, o.next(fn(f)+"|slice"), r.P.Pos(in.Pos()), why, "slice expression is not bounded on every path ("+why+"): a crafted encoding slices out of range and panics")
+		case *ssa.SliceToArrayPointer:
+			// [N]T(s) / (*[N]T)(s) panics when len(s) < N
+			n++
+			need := int64(-1)
+			if pt, ok := x.Type().Underlying().(*types.Pointer); ok {
+				need = arrayLen(pt.Elem())
+			}
+			facts, ok := engine.FactsOn(f, in.Block())
+			good := false
+			if ok && need >= 0 {
+				good = minLen(facts, x.X) >= need
+			}
+			r.Check(good, rule, o.next(fn(f)+"|slice to array"), r.P.Pos(in.Pos()), "the slice is at least as long as the array on every path",
+				fmt.Sprintf("a slice is converted to an array of %d elements without a length test on every path: a shorter byte string from the wire panics the decoder", need))
 		case *ssa.Call:
 			// hex.Decode(dst, src): needs len(dst) >= len(src)/2
 			if extCalleeIs(x, "encoding/hex", "", "Decode") {
@@ -1019,5 +1035,40 @@ func costLinear(r *engine.Run, rule string) {
 	}
 	if n < 2 {
 		r.Anchor(rule, fmt.Errorf("unresolved anchor: %d method calls on recursively decoded subtrees found", n))
+	}
+}
+
+// domTracker: every node CreateNode hands back has its origin tracker installed:
+// SetOriginTracker on the node with a non-nil tracker dominates every return
+// that carries the node (Encode, GetOrigin and Clone go through the tracker).
+func domTracker(r *engine.Run, rule string) {
+	f := r.Fn(rule, pkgUtil, "", "CreateNode")
+	if f == nil {
+		return
+	}
+	var sets []*ssa.Call
+	engine.Instrs(f, func(in ssa.Instruction) {
+		if c, ok := in.(*ssa.Call); ok && c.Call.IsInvoke() && c.Call.Method.Name() == "SetOriginTracker" && len(c.Call.Args) == 1 && !nilConst(c.Call.Args[0]) {
+			sets = append(sets, c)
+		}
+	})
+	n := 0
+	o := ord{}
+	for _, ret := range engine.Returns(f) {
+		if len(ret.Results) != 2 || nilConst(resultValue(ret, 0)) {
+			continue
+		}
+		n++
+		good := false
+		for _, sc := range sets {
+			if engine.InstrDominates(sc, ret) {
+				good = true
+			}
+		}
+		r.Check(good, rule, o.next(fn(f)+"|node returned"), r.P.Pos(ret.Pos()), "SetOriginTracker with a non-nil tracker dominates the return of the node",
+			"CreateNode can hand back a node whose origin tracker was not installed on that path: re-encoding, hashing or cloning the accepted node dereferences a nil tracker and panics")
+	}
+	if n < 1 {
+		r.Anchor(rule, fmt.Errorf("unresolved anchor: returns of CreateNode that carry a node"))
 	}
 }
